@@ -12,7 +12,12 @@ use std::hash::{BuildHasher, Hash};
 use std::sync::atomic::Ordering;
 use std::sync::Arc;
 use std::time::Duration;
+#[cfg(not(excsn_fibre_verif))]
 use std::{fmt, thread};
+#[cfg(excsn_fibre_verif)]
+use std::fmt;
+#[cfg(excsn_fibre_verif)]
+use fibre_verif_rt::thread;
 
 use ahash::HashMap;
 use equivalent::Equivalent;
@@ -42,7 +47,7 @@ pub(crate) struct CacheShared<K: Send, V: Send + Sync, H> {
   // Non-blocking maintenance requests from async paths to the janitor
   // (shard index). `Some` whenever the janitor is running. Lossy by design:
   // a full buffer means the janitor is already busy.
-  pub(crate) maintenance_signal: Option<std::sync::mpsc::SyncSender<usize>>,
+  pub(crate) maintenance_signal: Option<crate::task::janitor::signal_mpsc::SyncSender<usize>>,
 }
 
 impl<K: Send, V: Send + Sync, H> fmt::Debug for CacheShared<K, V, H> {
